@@ -76,6 +76,58 @@ def global_calls(tr, step, kind, ncell, box):
     return glob
 
 
+SLOT_PHASE = [0] * 7 + [1, 2] + [3] * 7 + [4, 5]
+
+
+def dependence_violations(tr, step):
+    """the hypothesis of schedule independence on the real schedule: a task of a later phase that touches a
+    subgrid must not start before every task of an earlier phase that touches the same subgrid has finished"""
+    start, finish = {}, {}
+    for pos, (k, t) in enumerate(tr.steps[step]["order"]):
+        (start if k == "A" else finish).setdefault(t, pos)
+    by_sub = collections.defaultdict(list)
+    for t, foot in tr.taskfoot.items():
+        for g in foot:
+            by_sub[g].append(t)
+    bad = []
+    for g, ts in by_sub.items():
+        for a in ts:
+            pa = SLOT_PHASE[tr.tasktype[a][1]]
+            for b_ in ts:
+                if pa < SLOT_PHASE[tr.tasktype[b_][1]] and a in finish and b_ in start and not finish[a] < start[b_]:
+                    bad.append((g, tr.tasktype[a], tr.tasktype[b_]))
+    return bad
+
+
+def graph_dependence_violations(tr):
+    """`dependences_ordered_by_graph` on the implementation's own task table: every task of a later phase
+    that touches a subgrid must be a descendant (child lists as dumped) of every task of an earlier phase
+    that touches the same subgrid"""
+    desc = {}
+
+    def descendants(t):
+        if t not in desc:
+            d = set()
+            for ch in tr.children.get(t, []):
+                d.add(ch)
+                d |= descendants(ch)
+            desc[t] = d
+        return desc[t]
+    by_sub = collections.defaultdict(list)
+    for t, foot in tr.taskfoot.items():
+        for g in foot:
+            by_sub[g].append(t)
+    bad = []
+    for g, ts in by_sub.items():
+        for a in ts:
+            pa = SLOT_PHASE[tr.tasktype[a][1]]
+            da = descendants(a)
+            for b_ in ts:
+                if pa < SLOT_PHASE[tr.tasktype[b_][1]] and b_ not in da:
+                    bad.append((g, tr.tasktype[a], tr.tasktype[b_]))
+    return bad
+
+
 def one_case(ctx, binary, drv10, max_cells):
     rng = ctx.rng
     while True:
@@ -117,6 +169,17 @@ def one_case(ctx, binary, drv10, max_cells):
             ctx.broken_obligation("cell midpoints of the dump are not cell centres of the %s grid (%s)" % (ncell, name), "")
             return
         results[name] = dict(state=st, bits=bits, state0=st0, tr=tr, layout=lay, cells=cel, threads=thr)
+        gv = graph_dependence_violations(tr)
+        if gv:
+            g_, ta, tb = gv[0]
+            ctx.violation("schedule:dependence-not-in-task-graph", "the constructed task graph does not order task (subgrid %d slot %d) before task (subgrid %d slot %d) although both touch subgrid %d and the second belongs to a later phase (%d such pairs; layout %s periodic %s): their order, hence the result, depends on the schedule"
+                          % (ta[0], ta[1], tb[0], tb[1], g_, len(gv), lay, per), dict(rep, run=name, run_layout=lay, run_cells=cel, run_threads=thr))
+        dv = dependence_violations(tr, 0)
+        ctx.branch("schedules-checked-against-data-dependences")
+        if dv:
+            g_, ta, tb = dv[0]
+            ctx.violation("schedule:data-dependence-violated", "task (subgrid %d slot %d) of a later phase started before task (subgrid %d slot %d), which touches the same subgrid %d, had finished (%d such pairs; layout %s, %d threads, %s)"
+                          % (tb[0], tb[1], ta[0], ta[1], g_, len(dv), lay, thr, tag), dict(rep, run=name, run_layout=lay, run_cells=cel, run_threads=thr, trace=[l for l in res["trace"] if l.split()[1] in "AFT"][:3000]))
     ref = results["reference 1x1x1 sequential"]
     nfaces = sum(c04.python_grid_faces(ncell, per).values())
     tol = min(TOL_PER_FACE * nfaces, TOL_CAP)
@@ -236,10 +299,16 @@ def replay(ctx, path):
     if obj.get("run") == "one-thread":
         runs[0] = runs[1]
     st = []
+    sched_bad = []
     for lay, cel, thr in runs:
         res = c04.run_hydro(binary, lay, per, cel, g, states, thr, steps=1, box=box)
         tr = c04.Trace(res["trace"])
         st.append(state_by_cell(tr, 0, 1, ncell, box))
+        sched_bad += graph_dependence_violations(tr) + dependence_violations(tr, 0)
+    if str(obj.get("key", "")).startswith("schedule:"):
+        print("pairs of conflicting tasks not ordered by the task graph / by the observed schedule: %d, e.g. %r" % (len(sched_bad), sched_bad[:2]))
+        print("REPRODUCED" if sched_bad else "not reproduced")
+        return 1 if sched_bad else 0
     nfaces = sum(c04.python_grid_faces(ncell, per).values())
     tol = min(TOL_PER_FACE * nfaces, TOL_CAP)
     if obj.get("run") == "one-thread":
